@@ -394,7 +394,7 @@ static int cmp_aggr(const Case *c, int res, int has_level, int level, KSI_DataHa
 	if (has_level && level != ref->level) { report(c, "level-differs", "any", "root level %d, reference %d", level, ref->level); return 0; }
 	if (KSI_DataHash_getImprint(root, &p, &pl) != KSI_OK || pl != ref->imp_len || memcmp(p, ref->imp, pl)) {
 		char *a = p ? vh_hex(p, pl) : strdup("?"), *b = vh_hex(ref->imp, ref->imp_len);
-		first_bad_link(c, cls, sizeof cls);
+		if (strstr(c->entry, "memo") || strstr(c->entry, "List")) snprintf(cls, sizeof cls, "any"); else first_bad_link(c, cls, sizeof cls);
 		report(c, "root-differs", cls, "root %s, reference %s (first diverging prefix ends with a %s link)", a, b, cls);
 		free(a); free(b);
 		return 0;
@@ -495,4 +495,533 @@ static void mode_aggx(int Lfull, int Lmax) {
 		}
 	}
 	for (n = 0; n < 16; n++) link_clear(&l[n]);
+}
+
+/* ------------------------------------------------------------------ random aggregation chains */
+static uint64_t rand_correction(int budget_left) {
+	unsigned r = (unsigned)vh_below(100);
+	static const uint64_t BIG[] = {256, 257, 511, 65535, 65536, 0x7fffffffull, 0x80000000ull, 0xfffffffeull, 0xffffffffull, 1ull << 32, (1ull << 32) + 1, (1ull << 32) + 255,
+		(1ull << 32) + 256, 1ull << 33, 0x1ffffffffull, 1ull << 40, 1ull << 63, (1ull << 63) + 1, ~0ull, ~0ull - 1, ~0ull - 255, 0xffffffff00000000ull, 0xffffffff00000001ull, 0xffffffff7fffffffull, 0xffffffff80000000ull};
+	if (r < 4) return BIG[vh_below(sizeof BIG / sizeof BIG[0])];
+	if (r < 6) return (vh_rand() >> vh_below(56)) | 256;                      /* arbitrary > 255 */
+	if (r < 10) return vh_below(256);                                          /* any in-range value */
+	if (budget_left > 0 && r < 30) return vh_below((uint64_t)(budget_left < 6 ? budget_left : 6) + 1);
+	return 0;
+}
+/* generates a chain; target_valid: keep the level inside 0..255 when starting at `start` */
+static RLink *gen_chain(size_t n, int start, int target_valid, int allow_noncanon) {
+	RLink *l = calloc(n ? n : 1, sizeof(RLink)); size_t i; int level = start;
+	for (i = 0; i < n; i++) {
+		unsigned k = (unsigned)vh_below(10); uint64_t c = 0; int has = 0;
+		l[i].isLeft = (int)vh_below(2);
+		gen_sibling(&l[i], k < 6 ? SIB_IMPRINT : k < 8 ? SIB_LEGACY : SIB_META, allow_noncanon, 1);
+		if (target_valid) {
+			int remaining = (int)(n - i - 1), budget = 255 - level - 1 - remaining;
+			if (budget > 0 && vh_below(3) == 0) { c = vh_below((uint64_t)(budget < 40 ? budget : 40) + 1); has = 1; if (vh_below(50) == 0) c = (uint64_t)budget; }
+			else has = (int)vh_below(4) == 0;
+			level += (int)c + 1;
+		} else {
+			c = rand_correction(255 - level - 1 - (int)(n - i - 1)); has = c != 0 || vh_below(3) == 0;
+			if (c <= 255) level += (int)c + 1;
+		}
+		l[i].has_lc = has; l[i].lc = c;
+	}
+	return l;
+}
+
+static void aggr_one_random(uint64_t caseno) {
+	unsigned sel = (unsigned)vh_below(100); size_t n; int start, target_valid = vh_below(100) < 65; RLink *l; unsigned char in[80]; size_t in_len; long long alg;
+	int starts[1];
+	if (sel < 50) n = 1 + (size_t)vh_below(16); else if (sel < 80) n = 17 + (size_t)vh_below(64); else n = 81 + (size_t)vh_below(220);
+	start = vh_below(4) == 0 ? (int)vh_below(256) : (int)vh_below(20);
+	if (target_valid && (int)n > 255 - start) n = (size_t)(255 - start) ? (size_t)vh_below((uint64_t)(255 - start)) + 1 : 1;
+	if (vh_below(40) == 0) n = (size_t)(255 - start) + (size_t)vh_below(3);   /* exactly at / just over the level limit */
+	if (n == 0) n = 1;
+	l = gen_chain(n, start, target_valid, 1);
+	gen_imprint(in, &in_len, KNOWN[vh_below(NKNOWN)]);
+	alg = SUP[vh_below((uint64_t)NSUP)];
+	starts[0] = start;
+	vh_case("aggr case=%llu n=%zu start=%d alg=%lld valid_target=%d", (unsigned long long)caseno, n, start, alg, target_valid);
+	{ RRes r; ref_aggr(l, n, in, in_len, start, alg, &r); if (r.status == R_OK && n > 64) vh_count("valid_chains_longer_than_64", 1); if (n > 255) vh_count("chains_longer_than_255", 1); }
+
+	/* (a)+(b) setter-built list and object */
+	run_both_entries(l, n, in, in_len, alg, starts, 1);
+
+	/* (c) the same chain parsed from reference-built TLV bytes */
+	{
+		int pres; KSI_AggregationHashChain *obj = lib_aggr_parse(l, n, in, in_len, (uint64_t)alg, &pres);
+		if (!obj) vh_count(pres == -1 ? "tlv_not_encodable" : "tlv_chain_parse_rejected", 1);
+		else {
+			RRes ref; Case c = {"AggregationHashChain_aggregate(parsed)", l, n, in, in_len, start, alg, NULL}; int lvl = -12345, res; KSI_DataHash *root = NULL;
+			KSI_HashChainLinkList *lst = NULL; KSI_DataHash *inh = NULL; KSI_HashChainLinkIdentityList *ids = NULL;
+			ref_aggr(l, n, in, in_len, start, alg, &ref);
+			res = KSI_AggregationHashChain_aggregate(obj, start, &lvl, &root);
+			cmp_aggr(&c, res, res == KSI_OK, lvl, root, &ref);
+			KSI_DataHash_free(root); root = NULL;
+			vh_count("tlv_chains_parsed", 1);
+			/* the parsed link list through the direct entry, before and after the identity getters walked the metadata */
+			KSI_AggregationHashChain_getChain(obj, &lst); KSI_AggregationHashChain_getInputHash(obj, &inh);
+			c.entry = "HashChain_aggregate(parsed)";
+			res = KSI_HashChain_aggregate(ctx, lst, inh, start, (KSI_HashAlgorithm)alg, &lvl, &root);
+			cmp_aggr(&c, res, res == KSI_OK, lvl, root, &ref);
+			KSI_DataHash_free(root); root = NULL;
+			if (KSI_AggregationHashChain_getIdentity(obj, &ids) == KSI_OK) {
+				KSI_HashChainLinkIdentityList_free(ids);
+				c.entry = "HashChain_aggregate(parsed,after-getIdentity)";
+				res = KSI_HashChain_aggregate(ctx, lst, inh, start, (KSI_HashAlgorithm)alg, &lvl, &root);
+				cmp_aggr(&c, res, res == KSI_OK, lvl, root, &ref);
+				KSI_DataHash_free(root); root = NULL;
+			} else vh_count("getIdentity_failed", 1);
+			KSI_AggregationHashChain_free(obj);
+		}
+	}
+	links_free(l, n);
+}
+
+/* a list of chains: chain k+1 takes chain k's reference output as input hash and starts at its final level */
+static void aggr_list_random(uint64_t caseno) {
+	enum { MAXC = 5 };
+	size_t nc = 1 + (size_t)vh_below(MAXC), k, tot = 0; RLink *ls[MAXC]; size_t ns[MAXC]; long long algs[MAXC]; unsigned char ins[MAXC][80]; size_t inl[MAXC];
+	KSI_AggregationHashChainList *lst = NULL; int start = (int)vh_below(8), level, expect = R_OK, why = 0; size_t why_chain = 0; RRes r; int target_valid = vh_below(100) < 70;
+	int built = 1, res; KSI_DataHash *root = NULL; RLink *flat; unsigned char cur[80]; size_t curl;
+	if (vh_below(30) == 0) start = (int)vh_below(256);
+	level = start; memset(&r, 0, sizeof r);
+	gen_imprint(cur, &curl, KNOWN[vh_below(NKNOWN)]);
+	vh_case("aggr-list case=%llu nchains=%zu start=%d", (unsigned long long)caseno, nc, start);
+	if (KSI_AggregationHashChainList_new(&lst) != KSI_OK) { harness_fail("list_new", 0); return; }
+	for (k = 0; k < nc; k++) {
+		KSI_AggregationHashChain *obj = NULL; int mr = 0, pres = 0;
+		ns[k] = 1 + (size_t)vh_below(target_valid ? 20 : 60);
+		algs[k] = SUP[vh_below((uint64_t)NSUP)];
+		ls[k] = gen_chain(ns[k], level < 256 ? level : 255, target_valid && level + (int)ns[k] + 60 < 255, 0);
+		memcpy(ins[k], cur, curl); inl[k] = curl; tot += ns[k];
+		if (expect == R_OK) {
+			ref_aggr(ls[k], ns[k], cur, curl, level, algs[k], &r);
+			if (r.status == R_OK) { level = r.level; memcpy(cur, r.imp, r.imp_len); curl = r.imp_len; }
+			else { expect = r.status; why = r.why; why_chain = k; }
+		}
+		if (vh_below(2)) obj = lib_aggr_parse(ls[k], ns[k], ins[k], inl[k], (uint64_t)algs[k], &pres);
+		else { KSI_HashChainLinkList *ll = lib_list(ls[k], ns[k], 0, &mr); if (ll) { obj = lib_aggr_obj(ll, ins[k], inl[k], (uint64_t)algs[k]); if (!obj) KSI_HashChainLinkList_free(ll); } }
+		if (!obj || KSI_AggregationHashChainList_append(lst, obj) != KSI_OK) { KSI_AggregationHashChain_free(obj); built = 0; vh_count("list_chain_not_built", 1); k++; break; }
+	}
+	nc = k;
+	if (built) {
+		/* describe the whole list as one flat chain in the replay text (chain boundaries in the note) */
+		char note[300]; Case c; size_t o = 0, q; RRes rr = r;
+		flat = calloc(tot ? tot : 1, sizeof(RLink));
+		for (k = 0; k < nc; k++) for (q = 0; q < ns[k]; q++) flat[o++] = ls[k][q];
+		o = (size_t)snprintf(note, sizeof note, "chain list: %zu chains, lengths/hash ids:", nc);
+		for (k = 0; k < nc && o < sizeof note - 24; k++) o += (size_t)snprintf(note + o, sizeof note - o, " %zu/%lld", ns[k], algs[k]);
+		c.entry = "AggregationHashChainList_aggregate"; c.l = flat; c.n = tot; c.in = ins[0]; c.in_len = inl[0]; c.start = start; c.alg = algs[0]; c.note = note;
+		rr.status = expect; rr.why = why;
+		if (expect == R_REJECT) { size_t base = 0; for (k = 0; k < why_chain; k++) base += ns[k]; rr.why_at = base + r.why_at; }
+		if (expect == R_OK) { rr.level = level; memcpy(rr.imp, cur, curl); rr.imp_len = curl; }
+		res = KSI_AggregationHashChainList_aggregate(lst, ctx, start, &root);
+		/* a root mismatch here is located with the flat chain only when a single hash id is used; cmp_aggr's locator is best effort */
+		cmp_aggr(&c, res, 0, 0, root, &rr);
+		vh_fp(vh_mix(chain_fp(flat, tot, start, algs[0], 3), nc));
+		vh_count("chain_lists", 1);
+		if (expect == R_OK) vh_count("chain_lists_valid", 1);
+		KSI_DataHash_free(root);
+		free(flat);
+	}
+	KSI_AggregationHashChainList_free(lst);
+	for (k = 0; k < nc; k++) links_free(ls[k], ns[k]);
+}
+
+/* hash ids the build cannot compute: a known-but-unsupported id must not yield KSI_OK */
+static void aggr_bad_hash_id(uint64_t caseno) {
+	static const uint64_t IDS[] = {3, 6, 7, 8, 9, 10, 11, 12, 0x7e, 0xff, 0x100, 0x101, 0xffffffffull, 1ull << 32, (1ull << 32) + 1, (1ull << 32) + 5, ~0ull};
+	uint64_t id = IDS[vh_below(sizeof IDS / sizeof IDS[0])]; size_t n = 1 + (size_t)vh_below(4); RLink *l = gen_chain(n, 0, 1, 0); unsigned char in[80]; size_t in_len; int mr = 0;
+	KSI_HashChainLinkList *ll; KSI_AggregationHashChain *obj; int lvl, res; KSI_DataHash *root = NULL;
+	gen_imprint(in, &in_len, 1);
+	vh_case("aggr-bad-hash-id case=%llu id=%llu", (unsigned long long)caseno, (unsigned long long)id);
+	ll = lib_list(l, n, 0, &mr);
+	obj = ll ? lib_aggr_obj(ll, in, in_len, id) : NULL;
+	if (obj) {
+		res = KSI_AggregationHashChain_aggregate(obj, 0, &lvl, &root);
+		vh_eval++;
+		if (res == KSI_OK && id <= 0xff && !KSI_isHashAlgorithmSupported((KSI_HashAlgorithm)id)) {
+			Case c = {"AggregationHashChain_aggregate", l, n, in, in_len, 0, (long long)id, NULL};
+			report(&c, "ok-with-unsupported-hash-id", "id-le-255", "KSI_OK for hash id %llu which this build reports as unsupported", (unsigned long long)id);
+		} else if (res == KSI_OK && id > 0xff) vh_count(id >= (1ull << 32) ? "obs_hash_id_ge_2p32_accepted" : "obs_hash_id_gt_255_accepted", 1);
+		else if (res != KSI_OK) vh_count("bad_hash_id_rejected", 1);
+		else vh_count("skipped_out_of_domain", 1);
+		KSI_DataHash_free(root);
+		KSI_AggregationHashChain_free(obj);
+	} else KSI_HashChainLinkList_free(ll);
+	links_free(l, n);
+}
+
+static void mode_aggr(uint64_t ncases) {
+	uint64_t i;
+	for (i = 0; i < ncases; i++) {
+		unsigned s = (unsigned)vh_below(100);
+		if (s < 70) aggr_one_random(i); else if (s < 96) aggr_list_random(i); else aggr_bad_hash_id(i);
+	}
+}
+
+/* ------------------------------------------------------------------ memoised output of KSI_AggregationHashChain_aggregate */
+/* One object, a sequence of calls with different start levels; every call is compared with the reference for that level. */
+static void mode_memo(uint64_t ncases, int withfail, long cache) {
+	uint64_t i;
+	if (cache >= 0) { if (KSI_CTX_setOption(ctx, KSI_OPT_DATAHASH_CACHE_SIZE, (void *)(size_t)cache) != KSI_OK) vh_count("cache_option_not_set", 1); }
+	for (i = 0; i < ncases; i++) {
+		size_t n = 1 + (size_t)vh_below(12), k, ncalls = 4 + (size_t)vh_below(10); RLink *l; unsigned char in[80]; size_t in_len; long long alg = SUP[vh_below((uint64_t)NSUP)];
+		KSI_HashChainLinkList *ll; KSI_AggregationHashChain *obj; int mr = 0, used = 0, failed_before = 0, prev = -1; char hist[400]; size_t ho = 0;
+		l = gen_chain(n, 0, 1, 0);
+		/* the chain itself is valid from level 0; its total rise decides which start levels must be rejected */
+		for (k = 0; k < n; k++) used += (int)(l[k].has_lc ? l[k].lc : 0) + 1;
+		gen_imprint(in, &in_len, KNOWN[vh_below(NKNOWN)]);
+		ll = lib_list(l, n, 0, &mr);
+		obj = ll ? (vh_below(2) ? lib_aggr_obj(ll, in, in_len, (uint64_t)alg) : NULL) : NULL;
+		if (ll && !obj) { int pres; KSI_HashChainLinkList_free(ll); ll = NULL; obj = lib_aggr_parse(l, n, in, in_len, (uint64_t)alg, &pres); }
+		if (!obj) { vh_count("memo_object_not_built", 1); links_free(l, n); continue; }
+		hist[0] = 0;
+		for (k = 0; k < ncalls; k++) {
+			int start, lvl = -12345, res; KSI_DataHash *root = NULL; RRes ref; char note[520];
+			Case c = {"AggregationHashChain_aggregate", l, n, in, in_len, 0, alg, note};
+			unsigned s = (unsigned)vh_below(10);
+			if (s < 3 && prev >= 0) start = prev;                                  /* memo hit */
+			else if (withfail && s < 6) start = 256 - used + (int)vh_below((uint64_t)used);   /* must be rejected: level would pass 255 */
+			else start = (int)vh_below((uint64_t)(255 - used) + 1);                /* valid */
+			c.start = start;
+			ref_aggr(l, n, in, in_len, start, alg, &ref);
+			if (ho < sizeof hist - 12) ho += (size_t)snprintf(hist + ho, sizeof hist - ho, "%s%d%s", k ? "," : "", start, ref.status == R_REJECT ? "!" : "");
+			snprintf(note, sizeof note, "same object, call %zu of the start-level sequence [%s] ('!' = must be rejected)%s", k + 1, hist, failed_before ? "; an earlier call in the sequence failed" : "");
+			vh_case("memo case=%llu withfail=%d cache=%ld seq=[%s] n=%zu alg=%lld", (unsigned long long)i, withfail, cache, hist, n, alg);
+			res = KSI_AggregationHashChain_aggregate(obj, start, &lvl, &root);
+			c.entry = failed_before ? "AggregationHashChain_aggregate:memo-after-failed-call" : (prev == start ? "AggregationHashChain_aggregate:memo-hit" : "AggregationHashChain_aggregate:memo-other-level");
+			cmp_aggr(&c, res, res == KSI_OK, lvl, root, &ref);
+			vh_fp(vh_mix(chain_fp(l, n, start, alg, 4), vh_hash_bytes(hist, strlen(hist))));
+			if (res == KSI_OK) vh_count(failed_before ? "memo_ok_after_failed_call" : prev == start ? "memo_hits" : "memo_recomputes", 1);
+			else { vh_count("memo_failed_calls", 1); failed_before = 1; }
+			KSI_DataHash_free(root);
+			prev = start;
+		}
+		KSI_AggregationHashChain_free(obj);
+		links_free(l, n);
+	}
+}
+
+/* ------------------------------------------------------------------ calendar: registration time from shape and publication time */
+static uint64_t hb(uint64_t q) { uint64_t b = 1; while ((q >> 1) >= b) b <<= 1; return b; }   /* largest power of two <= q, q > 0 */
+
+/* explicit tree T(p): enumerate all root-to-leaf paths; table[len][bits] = leaf time, bit i of bits = "link i is a left link",
+ * link 0 being the one next to the leaf */
+#define CAL_MAXLEN 20
+static int64_t *cal_tab[CAL_MAXLEN + 1]; static int cal_tab_maxlen;
+static uint64_t cal_leaves;
+static void cal_enum(uint64_t q, uint64_t off, int depth, const unsigned char *dirs_from_root) {
+	unsigned char d[80];
+	if (q == 0) {
+		uint32_t bits = 0; int i;
+		for (i = 0; i < depth; i++) if (dirs_from_root[depth - 1 - i]) bits |= 1u << i;
+		cal_leaves++;
+		if (depth <= cal_tab_maxlen) cal_tab[depth][bits] = (int64_t)off;
+		return;
+	}
+	memcpy(d, dirs_from_root, (size_t)depth);
+	{ uint64_t b = hb(q);
+	d[depth] = 1; cal_enum(b - 1, off, depth + 1, d);          /* left child: perfect tree over off .. off+b-1 */
+	d[depth] = 0; cal_enum(q - b, off + b, depth + 1, d); }   /* right child: T(q-b) over off+b .. */
+}
+static void cal_build(uint64_t p, int maxlen) {
+	int n; unsigned char d[1];
+	cal_tab_maxlen = maxlen;
+	for (n = 0; n <= maxlen; n++) { size_t sz = (size_t)1 << n, i; if (!cal_tab[n]) cal_tab[n] = malloc(sz * sizeof(int64_t)); for (i = 0; i < sz; i++) cal_tab[n][i] = -1; }
+	cal_leaves = 0;
+	cal_enum(p, 0, 0, d);
+}
+/* the same definition evaluated lazily along one direction string (for times too large to build the tree) */
+static int cal_lazy(const unsigned char *isLeft, size_t n, uint64_t p, uint64_t *t) {
+	uint64_t q = p, off = 0; size_t i;
+	for (i = n; i-- > 0;) {
+		uint64_t b;
+		if (q == 0) return 0;          /* reached a leaf but links remain */
+		b = hb(q);
+		if (isLeft[i]) q = b - 1; else { off += b; q -= b; }
+	}
+	if (q != 0) return 0;
+	*t = off; return 1;
+}
+
+static KSI_CalendarHashChain *cal_obj(const unsigned char *isLeft, size_t n, KSI_HashChainLinkList **lst_out) {
+	KSI_CalendarHashChain *c = NULL; KSI_HashChainLinkList *lst = NULL; KSI_HashChainLink *k = NULL; size_t i; static unsigned char imp[33] = {1};
+	TRY(KSI_CalendarHashChain_new(ctx, &c));
+	TRY(KSI_HashChainLinkList_new(&lst));
+	for (i = 0; i < n; i++) {
+		KSI_DataHash *h;
+		TRY(KSI_HashChainLink_new(ctx, &k)); TRY(KSI_HashChainLink_setIsLeft(k, isLeft[i]));
+		h = lib_hash(imp, 33); if (!h) goto fail;
+		TRY(KSI_HashChainLink_setImprint(k, h));
+		TRY(KSI_HashChainLinkList_append(lst, k)); k = NULL;
+	}
+	TRY(KSI_CalendarHashChain_setHashChain(c, lst));
+	if (lst_out) *lst_out = lst;
+	return c;
+fail:
+	KSI_HashChainLink_free(k); KSI_HashChainLinkList_free(lst); KSI_CalendarHashChain_free(c);
+	return NULL;
+}
+static const char *plen_class(uint64_t p) { return p >> 63 ? "pubtime-top-bit" : p >> 32 ? "pubtime-33-63-bit" : p > 4096 ? "pubtime-32-bit" : "pubtime-small"; }
+static void cal_time_check(KSI_CalendarHashChain *c, const unsigned char *isLeft, size_t n, uint64_t p, int valid, uint64_t t, const char *origin) {
+	time_t out = (time_t)-777; int res; char key[160], rep[400], dirs[200]; size_t i;
+	vh_eval++;
+	res = KSI_CalendarHashChain_calculateAggregationTime(c, &out);
+	if (n == 0) { vh_count(res == KSI_OK ? "cal_empty_chain_ok" : "cal_empty_chain_rejected", 1); if (res != KSI_OK || (valid && (uint64_t)out == t)) return; }
+	if (valid && res == KSI_OK && (uint64_t)out == t) { vh_count("cal_time_equal", 1); return; }
+	if (!valid && res != KSI_OK) { vh_count("cal_impossible_shape_rejected", 1); return; }
+	if (valid && res != KSI_OK && (p >> 63)) { vh_count("cal_rejected_pubtime_not_representable", 1); return; }   /* time_t cannot hold such a time */
+	for (i = 0; i < n && i < sizeof dirs - 1; i++) dirs[i] = isLeft[i] ? 'L' : 'R';
+	dirs[i] = 0;
+	snprintf(rep, sizeof rep, "entry=CalendarHashChain_calculateAggregationTime publication_time=%llu links(first=leaf side)=%s origin=%s", (unsigned long long)p, dirs, origin);
+	if (!valid) { snprintf(key, sizeof key, "calculateAggregationTime:impossible-shape-accepted:%s", plen_class(p));
+		vh_viol(key, rep, "no leaf of the calendar tree for publication time %llu has this chain shape, but the call returned KSI_OK with time %lld | %s", (unsigned long long)p, (long long)out, rep); }
+	else if (res != KSI_OK) { snprintf(key, sizeof key, "calculateAggregationTime:valid-shape-rejected:%s", plen_class(p));
+		vh_viol(key, rep, "shape is the path of leaf %llu but the call failed with 0x%x | %s", (unsigned long long)t, res, rep); }
+	else { snprintf(key, sizeof key, "calculateAggregationTime:time-differs:%s", plen_class(p));
+		vh_viol(key, rep, "time %lld, reference %llu | %s", (long long)out, (unsigned long long)t, rep); }
+}
+
+static void mode_calx(int Lc, uint64_t P) {
+	/* one chain object per direction string, re-used for every publication time */
+	KSI_CalendarHashChain **objs[CAL_MAXLEN + 1]; int n; uint64_t p; unsigned char dl[CAL_MAXLEN + 1]; uint64_t selfcheck_bad = 0;
+	if (Lc > CAL_MAXLEN) Lc = CAL_MAXLEN;
+	for (n = 0; n <= Lc; n++) {
+		uint32_t bits; objs[n] = calloc((size_t)1 << n, sizeof(void *));
+		for (bits = 0; bits < (1u << n); bits++) { int i; for (i = 0; i < n; i++) dl[i] = (bits >> i) & 1; objs[n][bits] = cal_obj(dl, (size_t)n, NULL); }
+	}
+	for (p = g_shard; p <= P; p += g_nshards) {
+		KSI_Integer *pi = NULL;
+		if (KSI_Integer_new(ctx, p, &pi) != KSI_OK) { harness_fail("KSI_Integer_new", 0); continue; }
+		cal_build(p, Lc);
+		if (cal_leaves != p + 1) selfcheck_bad++;
+		vh_case("calx publication_time=%llu (all direction strings up to %d links)", (unsigned long long)p, Lc);
+		for (n = 0; n <= Lc; n++) {
+			uint32_t bits;
+			for (bits = 0; bits < (1u << n); bits++) {
+				int i, valid = cal_tab[n][bits] >= 0; uint64_t t = (uint64_t)cal_tab[n][bits], t2 = 0; KSI_CalendarHashChain *c = objs[n][bits];
+				if (!c) continue;
+				for (i = 0; i < n; i++) dl[i] = (bits >> i) & 1;
+				/* reference self check: lazy evaluation of the definition agrees with the explicit tree */
+				if (cal_lazy(dl, (size_t)n, p, &t2) != valid || (valid && t2 != t)) selfcheck_bad++;
+				KSI_CalendarHashChain_setPublicationTime(c, pi);
+				cal_time_check(c, dl, (size_t)n, p, valid, t, "exhaustive");
+				if (valid) vh_fp(vh_mix(vh_mix(0xCA1, p), (uint64_t)n << 32 | bits));
+			}
+		}
+		vh_count("calx_pubtimes", 1); vh_count("calx_tree_leaves", cal_leaves);
+		for (n = 0; n <= Lc; n++) { uint32_t bits; for (bits = 0; bits < (1u << n); bits++) if (objs[n][bits]) KSI_CalendarHashChain_setPublicationTime(objs[n][bits], NULL); }
+		KSI_Integer_free(pi);
+	}
+	for (n = 0; n <= Lc; n++) { uint32_t bits; for (bits = 0; bits < (1u << n); bits++) KSI_CalendarHashChain_free(objs[n][bits]); free(objs[n]); }
+	if (selfcheck_bad) { fprintf(stderr, "c03 harness: calendar reference self-check failed %llu times\n", (unsigned long long)selfcheck_bad); exit(3); }
+}
+
+/* ------------------------------------------------------------------ calendar: random times and hash aggregation */
+static uint64_t rand_pubtime(void) {
+	unsigned s = (unsigned)vh_below(12); int k = (int)vh_below(64);
+	switch (s) {
+		case 0: return vh_rand() & 0xffffffffull;
+		case 1: return vh_rand();
+		case 2: return vh_rand() | (1ull << 63);
+		case 3: return 1ull << k;
+		case 4: return (1ull << k) - 1;
+		case 5: return (1ull << k) + 1;
+		case 6: return 1400000000ull + vh_below(400000000ull);
+		case 7: return vh_rand() >> k;
+		case 8: return (vh_rand() >> 1);                         /* 63 bit */
+		case 9: return 0x7fffffffffffffffull - vh_below(3);
+		case 10: return 0x8000000000000000ull + vh_below(3);
+		default: return ~0ull - vh_below(3);
+	}
+}
+/* the path of leaf t in T(p), leaf side first */
+static size_t cal_path(uint64_t p, uint64_t t, unsigned char *isLeft) {
+	unsigned char from_root[80]; size_t d = 0, i; uint64_t q = p, off = 0;
+	while (q != 0) { uint64_t b = hb(q); if (t - off < b) { from_root[d++] = 1; q = b - 1; } else { from_root[d++] = 0; off += b; q -= b; } }
+	for (i = 0; i < d; i++) isLeft[i] = from_root[d - 1 - i];
+	return d;
+}
+static void calr_time_case(uint64_t caseno) {
+	uint64_t p = rand_pubtime(), t, t2 = 0; unsigned char dl[160]; size_t n; unsigned m = (unsigned)vh_below(10); int valid; KSI_CalendarHashChain *c; KSI_Integer *pi = NULL; const char *origin = "path-of-random-leaf";
+	t = vh_below(4) == 0 ? p - vh_below(p < 1000 ? p + 1 : 1000) : (p == ~0ull ? vh_rand() : vh_below(p + 1));
+	n = cal_path(p, t, dl);
+	if (m == 0 && n > 0) { dl[vh_below(n)] ^= 1; origin = "one-direction-flipped"; }
+	else if (m == 1 && n > 1) { size_t k = (size_t)vh_below(n); memmove(dl + k, dl + k + 1, n - k - 1); n--; origin = "one-link-dropped"; }
+	else if (m == 2) { size_t k = (size_t)vh_below(n + 1); memmove(dl + k + 1, dl + k, n - k); dl[k] = (unsigned char)vh_below(2); n++; origin = "one-link-inserted"; }
+	else if (m == 3) { size_t i; n = (size_t)vh_below(70); for (i = 0; i < n; i++) dl[i] = (unsigned char)vh_below(2); origin = "random-directions"; }
+	valid = cal_lazy(dl, n, p, &t2);
+	vh_case("calr-time case=%llu publication_time=%llu nlinks=%zu origin=%s", (unsigned long long)caseno, (unsigned long long)p, n, origin);
+	c = cal_obj(dl, n, NULL);
+	if (!c || KSI_Integer_new(ctx, p, &pi) != KSI_OK) { KSI_CalendarHashChain_free(c); return; }
+	KSI_CalendarHashChain_setPublicationTime(c, pi);
+	cal_time_check(c, dl, n, p, valid, t2, origin);
+	vh_fp(vh_mix(vh_mix(0xCA2, p), vh_hash_bytes(dl, n)));
+	vh_count(p >> 63 ? "calr_pubtime_top_bit" : p >> 32 ? "calr_pubtime_33_63_bit" : "calr_pubtime_le_32_bit", 1);
+	if (valid) vh_count("calr_valid_shapes", 1); else vh_count("calr_impossible_shapes", 1);
+	KSI_CalendarHashChain_free(c);
+}
+
+static void cal_report(const char *entry, const char *cond, const char *cls, const RLink *l, size_t n, const unsigned char *in, size_t in_len, const char *fmt, ...) {
+	char key[200], what[1200]; char *rep; va_list va;
+	snprintf(key, sizeof key, "%s:%s:%s", entry, cond, cls);
+	va_start(va, fmt); vsnprintf(what, sizeof what, fmt, va); va_end(va);
+	rep = describe_case(entry, l, n, in, in_len, 0xff, -1);
+	vh_viol(key, rep, "%s | %.900s", what, rep);
+	free(rep);
+}
+static void cal_cmp(const char *entry, const RLink *l, size_t n, const unsigned char *in, size_t in_len, int res, KSI_DataHash *root, const RRes *ref, int need_alg) {
+	const unsigned char *p = NULL; size_t pl = 0;
+	vh_eval++;
+	if (n == 0) { vh_count(res != KSI_OK ? "cal_empty_chain_rejected" : root ? "cal_empty_chain_ok_root" : "cal_empty_chain_ok_null_root", 1); return; }
+	if (ref->status == R_UNDECIDED) {
+		/* a left link switches to an algorithm the reference cannot compute */
+		if (res == KSI_OK && need_alg >= 0 && !KSI_isHashAlgorithmSupported(need_alg))
+			cal_report(entry, "ok-with-unsupported-algorithm", "left-link-switch", l, n, in, in_len, "KSI_OK although the chain switches to hash id %d which this build reports as unsupported", need_alg);
+		else vh_count(res == KSI_OK ? "skipped_out_of_domain" : "cal_unsupported_algorithm_rejected", 1);
+		return;
+	}
+	if (res != KSI_OK) { cal_report(entry, "valid-rejected", "any", l, n, in, in_len, "valid calendar chain rejected with 0x%x", res); return; }
+	if (!root) { cal_report(entry, "ok-null-root", "any", l, n, in, in_len, "KSI_OK without a root hash"); return; }
+	if (KSI_DataHash_getImprint(root, &p, &pl) != KSI_OK || pl != ref->imp_len || memcmp(p, ref->imp, pl)) {
+		/* locate: shortest diverging prefix */
+		char cls[64] = "unlocated", *a = p ? vh_hex(p, pl) : strdup("?"), *b = vh_hex(ref->imp, ref->imp_len); size_t k;
+		for (k = 1; k <= n; k++) {
+			RRes r; int na, mr = 0, bad; KSI_HashChainLinkList *ls; KSI_DataHash *ih, *rt = NULL; const unsigned char *q; size_t ql;
+			ref_cal(l, k, in, in_len, &r, &na); if (r.status != R_OK) break;
+			ls = lib_list(l, k, 1, &mr); ih = lib_hash(in, in_len);
+			bad = !ls || !ih || KSI_HashChain_aggregateCalendar(ctx, ls, ih, &rt) != KSI_OK || !rt || KSI_DataHash_getImprint(rt, &q, &ql) != KSI_OK || ql != r.imp_len || memcmp(q, r.imp, ql);
+			KSI_DataHash_free(rt); KSI_DataHash_free(ih); KSI_HashChainLinkList_free(ls);
+			if (bad) { int prevalg = k > 1 ? -2 : in[0]; size_t j; int cur = in[0]; for (j = 0; j + 1 < k; j++) if (l[j].isLeft) cur = l[j].sib[0]; prevalg = cur;
+				snprintf(cls, sizeof cls, "%s-link-%s", l[k - 1].isLeft ? "left" : "right", l[k - 1].sib[0] == prevalg ? "same-alg" : "other-alg"); break; }
+		}
+		cal_report(entry, "root-differs", cls, l, n, in, in_len, "root %s, reference %s (first diverging prefix ends with: %s)", a, b, cls);
+		free(a); free(b);
+		return;
+	}
+	vh_count("cal_roots_equal", 1);
+}
+static void calr_hash_case(uint64_t caseno) {
+	size_t n = vh_below(30) == 0 ? 0 : 1 + (size_t)vh_below(vh_below(4) == 0 ? 64 : 12), i; RLink *l = calloc(n ? n : 1, sizeof(RLink)); unsigned char in[80]; size_t in_len; RRes ref; int need = -1, mr = 0, res;
+	int exotic = vh_below(8) == 0; int switches = 0, cur;
+	KSI_HashChainLinkList *ls; KSI_DataHash *ih, *root = NULL;
+	gen_imprint(in, &in_len, SUP[vh_below((uint64_t)NSUP)]);
+	cur = in[0];
+	for (i = 0; i < n; i++) {
+		int alg = vh_below(3) ? cur : SUP[vh_below((uint64_t)NSUP)];
+		l[i].isLeft = (int)vh_below(2);
+		if (exotic && vh_below(4) == 0) alg = KNOWN[vh_below(NKNOWN)];     /* known ids the build may not support (SHA-3, SM3) */
+		gen_sib_imprint(&l[i], alg);
+		if (l[i].isLeft) { if (alg != cur) switches++; cur = alg; }
+	}
+	ref_cal(l, n, in, in_len, &ref, &need);
+	vh_case("calr-hash case=%llu n=%zu in_alg=%d switches=%d", (unsigned long long)caseno, n, in[0], switches);
+	vh_count("cal_algorithm_switches", (uint64_t)switches);
+	/* direct list entry */
+	ls = lib_list(l, n, 1, &mr); ih = lib_hash(in, in_len);
+	if (ls && ih) {
+		res = KSI_HashChain_aggregateCalendar(ctx, ls, ih, &root);
+		cal_cmp("HashChain_aggregateCalendar", l, n, in, in_len, res, root, &ref, need);
+		KSI_DataHash_free(root); root = NULL;
+	}
+	KSI_HashChainLinkList_free(ls); KSI_DataHash_free(ih);
+	/* chain object parsed from reference-built TLV bytes; two calls (the second one returns the stored output) */
+	if (n > 0) {
+		Buf b = {0}; KSI_CalendarHashChain *c = NULL; unsigned char *e; int pres = -1;
+		ser_cal_chain(&b, l, n, in, in_len, 1500000000u + vh_below(100000000u), (int)vh_below(2), 1400000000u);
+		e = vh_exact(b.p, b.n);
+		if (KSI_CalendarHashChain_new(ctx, &c) == KSI_OK) pres = KSI_TlvTemplate_parse(ctx, e, b.n, KSI_TLV_TEMPLATE(KSI_CalendarHashChain), c);
+		if (pres == KSI_OK) {
+			int k;
+			for (k = 0; k < 2; k++) {
+				res = KSI_CalendarHashChain_aggregate(c, &root);
+				cal_cmp(k ? "CalendarHashChain_aggregate(second-call)" : "CalendarHashChain_aggregate", l, n, in, in_len, res, root, &ref, need);
+				KSI_DataHash_free(root); root = NULL;
+			}
+			vh_count("cal_tlv_chains_parsed", 1);
+		} else vh_count("cal_tlv_chain_parse_rejected", 1);
+		KSI_CalendarHashChain_free(c);
+		vh_exact_free(e, b.n); buf_free(&b);
+	}
+	vh_fp(vh_mix(chain_fp(l, n, 0xff, in[0], 5), vh_hash_bytes(in, in_len)));
+	links_free(l, n);
+}
+static void mode_calr(uint64_t ncases) {
+	uint64_t i;
+	for (i = 0; i < ncases; i++) { if (vh_below(3)) calr_time_case(i); else calr_hash_case(i); }
+}
+
+/* ------------------------------------------------------------------ shape index */
+static void shape_check(KSI_AggregationHashChain *c, KSI_HashChainLinkList *lst, size_t n, const unsigned char *isLeft, const char *origin) {
+	size_t i; KSI_uint64_t out = 0xdeadbeefcafef00dull; int res; char key[120], rep[300], dirs[100], lc[24]; uint64_t ref = 1;
+	for (i = 0; i < n; i++) { KSI_HashChainLink *k = NULL; KSI_HashChainLinkList_elementAt(lst, i, &k); KSI_HashChainLink_setIsLeft(k, isLeft[i]); }
+	/* reference: directions read from the last link to the first, leading 1, left = 1, right = 0 */
+	if (n <= 63) for (i = n; i-- > 0;) ref = ref << 1 | (isLeft[i] ? 1 : 0);
+	vh_eval++;
+	res = KSI_AggregationHashChain_calculateShape(c, &out);
+	if (n == 0 && res != KSI_OK) { vh_count("shape_empty_rejected", 1); return; }
+	if (n <= 63 && res == KSI_OK && out == ref) { vh_count("shape_equal", 1); vh_fp(vh_mix(0x5a9e, ref) ^ n); return; }
+	if (n >= 64 && res != KSI_OK) { vh_count("shape_too_long_rejected", 1); vh_fp(vh_mix(0x5a9f, vh_hash_bytes(isLeft, n))); return; }
+	for (i = 0; i < n && i < sizeof dirs - 1; i++) dirs[i] = isLeft[i] ? 'L' : 'R';
+	dirs[i] = 0;
+	if (n <= 8) snprintf(lc, sizeof lc, "len-%zu", n); else if (n <= 62) snprintf(lc, sizeof lc, "len-9-62"); else if (n <= 65) snprintf(lc, sizeof lc, "len-%zu", n); else snprintf(lc, sizeof lc, "len-ge-66");
+	snprintf(rep, sizeof rep, "entry=AggregationHashChain_calculateShape nlinks=%zu links(first=leaf side)=%s origin=%s", n, dirs, origin);
+	if (n >= 64) { snprintf(key, sizeof key, "calculateShape:accepted-must-reject:%s", lc);
+		vh_viol(key, rep, "a chain of %zu links has an index of %zu bits, which does not fit 64 bits, but the call returned KSI_OK with 0x%llx (leading bit lost) | %s", n, n + 1, (unsigned long long)out, rep); }
+	else if (res != KSI_OK) { snprintf(key, sizeof key, "calculateShape:valid-rejected:%s", lc); vh_viol(key, rep, "status 0x%x, reference index 0x%llx | %s", res, (unsigned long long)ref, rep); }
+	else { snprintf(key, sizeof key, "calculateShape:value-differs:%s", lc); vh_viol(key, rep, "index 0x%llx, reference 0x%llx | %s", (unsigned long long)out, (unsigned long long)ref, rep); }
+}
+static void mode_shape(int Ls, uint64_t nrandom) {
+	size_t n; unsigned char d[128]; uint64_t counter = 0;
+	for (n = 0; n <= 80; n++) {
+		KSI_HashChainLinkList *lst = NULL; KSI_AggregationHashChain *c; size_t i; uint64_t r;
+		int wanted = (int)n <= Ls || (n >= 56 && n <= 70) || n == 80;
+		if (!wanted) continue;
+		memset(d, 0, sizeof d);
+		{ RLink *l = calloc(n ? n : 1, sizeof(RLink)); int mr = 0; for (i = 0; i < n; i++) gen_sib_imprint(&l[i], 1); lst = lib_list(l, n, 0, &mr); links_free(l, n); }
+		c = lst ? lib_aggr_obj(lst, (const unsigned char *)"\1aaaaaaaaaaaaaaaaaaaaaaaaaaaaaaaa", 33, 1) : NULL;
+		if (!c) { KSI_HashChainLinkList_free(lst); continue; }
+		vh_case("shape nlinks=%zu", n);
+		if ((int)n <= Ls) {
+			uint64_t pat;
+			for (pat = 0; pat < (1ull << n); pat++) { if ((counter++) % g_nshards != g_shard) continue; for (i = 0; i < n; i++) d[i] = (pat >> i) & 1; shape_check(c, lst, n, d, "exhaustive"); }
+		} else {
+			if ((counter++) % g_nshards == g_shard) {
+				memset(d, 1, n); shape_check(c, lst, n, d, "all-left");
+				memset(d, 0, n); shape_check(c, lst, n, d, "all-right");
+				for (i = 0; i < n; i++) d[i] = i & 1; shape_check(c, lst, n, d, "alternating");
+				for (i = 0; i < n; i++) { memset(d, 0, n); d[i] = 1; shape_check(c, lst, n, d, "single-left"); }
+				for (i = 0; i < n; i++) { memset(d, 1, n); d[i] = 0; shape_check(c, lst, n, d, "single-right"); }
+			}
+			for (r = 0; r < nrandom; r++) { for (i = 0; i < n; i++) d[i] = (unsigned char)vh_below(2); shape_check(c, lst, n, d, "random"); }
+		}
+		KSI_AggregationHashChain_free(c);
+	}
+}
+
+/* ------------------------------------------------------------------ */
+int main(int argc, char **argv) {
+	long long a, b, c; int i;
+	if (argc < 5) { fprintf(stderr, "usage: c03_chain <mode> <seed> <shard> <nshards> [a] [b] [c]\n"); return 2; }
+	g_mode = argv[1]; g_seed = strtoull(argv[2], NULL, 10); g_shard = strtoull(argv[3], NULL, 10); g_nshards = strtoull(argv[4], NULL, 10);
+	a = argc > 5 ? atoll(argv[5]) : 0; b = argc > 6 ? atoll(argv[6]) : 0; c = argc > 7 ? atoll(argv[7]) : -1;
+	if (g_nshards == 0) g_nshards = 1;
+	if (KSI_CTX_new(&ctx) != KSI_OK) { fprintf(stderr, "KSI_CTX_new failed\n"); return 2; }
+	ref_init();
+	if (NSUP < 2) { fprintf(stderr, "fewer than two usable hash algorithms\n"); return 2; }
+	vh_seed(g_seed * 1000003ull + g_shard * 7919ull + vh_hash_bytes(g_mode, strlen(g_mode)));
+	for (i = 0; i < NSUP; i++) { char nm[40]; snprintf(nm, sizeof nm, "alg_usable_id_%d", SUP[i]); if (g_shard == 0) vh_count(nm, 1); }
+	if (!strcmp(g_mode, "aggx")) mode_aggx((int)a, (int)b);
+	else if (!strcmp(g_mode, "aggr")) mode_aggr((uint64_t)a);
+	else if (!strcmp(g_mode, "memo")) mode_memo((uint64_t)a, (int)b, (long)c);
+	else if (!strcmp(g_mode, "calx")) mode_calx((int)a, (uint64_t)b);
+	else if (!strcmp(g_mode, "calr")) mode_calr((uint64_t)a);
+	else if (!strcmp(g_mode, "shape")) mode_shape((int)a, (uint64_t)b);
+	else { fprintf(stderr, "unknown mode %s\n", g_mode); return 2; }
+	KSI_CTX_free(ctx);
+	EVP_MD_CTX_free(ref_mdctx);
+	vh_finish(getenv("VH_FPFILE"));
+	return 0;
 }
